@@ -132,6 +132,17 @@ def corr_mesh(ck, rng):
     ck.corr_run("create_mesh", ["AcryoGen.Anchors_C05", "Acryo.C05.Model"], cases, shard=600, observable=False, classes=classes)
 
 
+def int_shifts_of(ms):
+    """the integer crop half-widths subpixel_pcc derives from max_shifts: evaluates the source's own `_int_shifts = ...` expression"""
+    import ast, inspect, textwrap
+    from acryo.backend import _pcc
+    tree = ast.parse(textwrap.dedent(inspect.getsource(_pcc.subpixel_pcc)))
+    for n in ast.walk(tree):
+        if isinstance(n, ast.Assign) and ast.unparse(n.targets[0]) == "_int_shifts":
+            return eval(compile(ast.Expression(n.value), "<_int_shifts>", "eval"), {"np": np, "_max_shifts": np.asarray(ms, dtype=np.float32)})
+    raise RuntimeError("subpixel_pcc no longer assigns _int_shifts")
+
+
 def corr_shapes(ck, rng):
     """landscape shapes (centre crop lengths) of the four models + crop_by_max_shifts against the model."""
     from acryo.backend._zncc import zncc_landscape_with_crop, ncc_landscape_with_crop
@@ -165,7 +176,7 @@ def corr_shapes(ck, rng):
         except Exception:
             got.append(-1)
         try:
-            im = np.array([int(m32)] * 3)
+            im = int_shifts_of(ms)
             got.append(crop_by_max_shifts(np.abs(fa), im, im, xp).shape[0])
         except Exception:
             got.append(-1)
